@@ -42,11 +42,15 @@ const ELIGIBLE_NAMES: &[&str] = &[
     "Token.sol", "a.sol", ".sol", "a.b.sol", "\u{540d}\u{524d}.sol", "a b.sol", "-x.sol", "Vault.sol", "t.sol", "at.sol", "x.tsol.sol", "UPPER.sol", "sol.sol", "a.t.x.sol",
     // letters whose upper / lower case forms are other letters or longer strings (long s, dotted capital I, sharp s, Kelvin sign)
     "Vault.t.\u{17f}ol.sol", "\u{130}.sol", "stra\u{df}e.sol", "\u{212a}.t.sol.x.sol",
+    // names that differ only in letter case or in the spelling of a number; markup and bidirectional control characters
+    "token.sol", "TOKEN.sol", "Vault_v1.sol", "Vault_v01.sol", "Vault_v001.sol", "Vault<T>.sol", "a&b.sol", "x\u{202e}y.sol", "\u{2066}z\u{2069}.sol", "a*b*.sol",
 ];
 const TEST_NAMES: &[&str] = &["a.t.sol", "A.T.sol", "x.T.sol", "Token.t.sol", ".t.sol", "b.t.SOL.t.sol", "\u{130}.T.sol"];
 const OTHER_NAMES: &[&str] = &[
     "a.SOL", "a.Sol", "a.sol.txt", "a.solx", "asol", "a.sol~", "README", ".gitignore", "solstat_report.md", "a.t.Sol", "sol", "a.sol.bak", "Makefile",
     "notes.md", "a.sol ", "x.json", "a.\u{17f}ol", "a.t.\u{17f}ol", "A.SO\u{212a}",
+    // project files of the usual tool chains (their content is plausible for the name, see `inert_content_for`)
+    "foundry.toml", "remappings.txt", "hardhat.config.js", "package.json", ".solhint.json", "Solstat.toml", "solstat.toml",
 ];
 const DIR_NAMES: &[&str] = &["sub", "lib", "x.sol", "x.t.sol", "node_modules", "interfaces", "a", "\u{76ee}\u{5f55}"];
 
@@ -59,6 +63,18 @@ pub const POOL: &[&str] = &[
     "contract NoPragma { function f ( address t ) public { t . approve ( t , 1 ) ; } }\n",
     "pragma solidity 0.8.4 ;\ninterface I { function f ( ) external ; }\n",
     "pragma solidity 0.7.6 ;\nlibrary SafeMath { function add ( uint256 a , uint256 b ) internal pure returns ( uint256 ) { return a + b ; } }\npragma solidity 0.8.13 ;\ncontract Flat {\nusing SafeMath for uint256 ;\nfunction f ( uint256 a ) public returns ( uint256 ) {\nrequire ( a > 0 , \"a message that is longer than thirty-two bytes in total\" ) ;\nreturn a . add ( 1 ) ;\n}\n}\n",
+    // white space only (an empty source unit), with line feeds
+    "\n\n\n \n\t\n\n",
+    // classic-Mac line ends: a lone CR ends the line comment and separates tokens, but is not a line feed
+    "// SPDX-License-Identifier: MIT\rpragma solidity ^0.8.0 ;\rcontract CR {\rfunction f ( address t , uint256 a , uint256 b , uint256 c ) public { t . transfer ( 1 ) ; a = a / b * c ; }\r}\r",
+    // no pragma, but SafeMath and a long revert string (no version => no version-gated finding)
+    "library SafeMath { function add ( uint256 a , uint256 b ) internal pure returns ( uint256 ) { return a + b ; } }\ncontract P {\nusing SafeMath for uint256 ;\nfunction f ( uint256 a ) public returns ( uint256 ) {\nrequire ( a > 0 , \"a message that is longer than thirty-two bytes in total\" ) ;\nreturn a . add ( 1 ) ;\n}\n}\n",
+    // a version without patch component
+    "pragma solidity ^0.8 ;\ncontract Q {\nusing SafeMath for uint256 ;\nfunction f ( uint256 a ) public returns ( uint256 ) {\nrequire ( a > 0 , \"a message that is longer than thirty-two bytes in total\" ) ;\nreturn a . add ( 1 ) ;\n}\n}\n",
+    // a file-level `using ... global` directive, and SafeMath-like calls without any using directive
+    "pragma solidity 0.8.13 ;\nusing SafeMath for uint256 global ;\ncontract G { function f ( uint256 a ) public returns ( uint256 ) { return a . add ( 1 ) ; } }\n",
+    "pragma solidity 0.8.13 ;\ncontract NoUsing { function f ( uint256 a ) public returns ( uint256 ) { return a . add ( 1 ) . mul ( 2 ) ; } }\n",
+    "pragma solidity 0.7.1 ;\ncontract NoUsingOld { function f ( uint256 a ) public returns ( uint256 ) { return a . sub ( 1 ) . div ( 2 ) ; } }\n",
     "pragma solidity 0.8.10 ;\ncontract M {\nuint256 public a1 ;\nuint256 public a2 ;\nuint256 public a3 ;\nuint256 constant K1 = 1 ;\nuint256 constant K2 = 2 ;\nfunction g (\nstring memory s ,\nuint256 [ ] memory arr ,\nbytes memory data ,\naddress [ ] memory who\n) external returns ( uint256 ) {\nreturn arr . length + who . length + bytes ( s ) . length + data . length ;\n}\n}\n",
 ];
 
@@ -115,6 +131,20 @@ fn inert_content(t: &mut Tape) -> Vec<u8> {
     }
 }
 
+/// Inert content that fits a well-known project file name (a tool that starts to read such files
+/// gives them influence on the result).
+fn inert_content_for(name: &str, t: &mut Tape) -> Vec<u8> {
+    match name {
+        "foundry.toml" => format!("[profile.default]\nsrc = 'src'\nsolc = \"{v}\"\nsolc_version = \"{v}\"\nevm_version = 'paris'\n", v = t.pick(&["0.8.4", "0.7.6", "0.8.0", "0.6.12"])).into_bytes(),
+        "remappings.txt" => b"@openzeppelin/=lib/openzeppelin-contracts/\nforge-std/=lib/forge-std/src/\n".to_vec(),
+        "hardhat.config.js" => b"module.exports = { solidity: { version: \"0.7.6\" } };\n".to_vec(),
+        "package.json" => b"{ \"name\": \"x\", \"devDependencies\": { \"solc\": \"0.8.4\" } }\n".to_vec(),
+        ".solhint.json" => b"{ \"extends\": \"solhint:recommended\", \"rules\": { \"compiler-version\": [\"error\", \"^0.8.4\"] } }\n".to_vec(),
+        "Solstat.toml" | "solstat.toml" => b"path = './nowhere'\noptimizations = [\"sstore\"]\nvulnerabilities = []\nqa = []\n".to_vec(),
+        _ => inert_content(t),
+    }
+}
+
 pub fn gen_dir(t: &mut Tape, cfg: &TreeCfg, depth: u32, skipped_undecided: &mut u64) -> Vec<Entry> {
     let n = t.range(if depth == 0 { 1 } else { 0 }, cfg.max_entries);
     let mut entries: Vec<Entry> = Vec::new();
@@ -152,7 +182,8 @@ pub fn gen_dir(t: &mut Tape, cfg: &TreeCfg, depth: u32, skipped_undecided: &mut 
             (name, "test-file", Kind::File(inert_content(t)))
         } else {
             let name = t.pick(OTHER_NAMES).to_string();
-            (name, "other-file", Kind::File(inert_content(t)))
+            let content = inert_content_for(&name, t);
+            (name, "other-file", Kind::File(content))
         };
         if undecided_name(&name) {
             *skipped_undecided += 1;
@@ -230,11 +261,35 @@ impl Drop for Scratch {
     }
 }
 
+/// Number of files created as a hard link of an earlier sibling (for the evidence).
+pub static HARD_LINKS: AtomicU64 = AtomicU64::new(0);
+
+/// Write a file; if an earlier sibling of the same directory holds the same bytes, every second such
+/// file (by a hash of its name) becomes a hard link to that sibling instead of a file of its own:
+/// two names of one inode are two files all the same.
+fn write_file(entries: &[Entry], e: &Entry, bytes: &[u8], at: &Path) {
+    let p = at.join(&e.name);
+    if crate::engine::fnv(&e.name) % 2 == 0 && !bytes.is_empty() {
+        for prev in entries {
+            if std::ptr::eq(prev, e) {
+                break;
+            }
+            if let Kind::File(b) = &prev.kind {
+                if b.as_slice() == bytes && std::fs::hard_link(at.join(&prev.name), &p).is_ok() {
+                    HARD_LINKS.fetch_add(1, Ordering::Relaxed);
+                    return;
+                }
+            }
+        }
+    }
+    std::fs::write(&p, bytes).expect("write file")
+}
+
 pub fn materialize(entries: &[Entry], at: &Path) {
     for e in entries {
         let p = at.join(&e.name);
         match &e.kind {
-            Kind::File(bytes) => std::fs::write(&p, bytes).expect("write file"),
+            Kind::File(bytes) => write_file(entries, e, bytes, at),
             Kind::Dir(children) | Kind::Link(children) => {
                 std::fs::create_dir(&p).expect("create dir");
                 materialize(children, &p);
@@ -245,19 +300,37 @@ pub fn materialize(entries: &[Entry], at: &Path) {
 
 /// Like `materialize`, but `Kind::Link` entries become symbolic links to directories created under `links`.
 pub fn materialize_with_links(entries: &[Entry], at: &Path, links: &Path) {
+    // the first link targets get paths that are proper string prefixes of the tree's own path
+    // (`<scratch>/tree` -> `<scratch>/tre`, `<scratch>/tr`, `<scratch>/t`): not ancestors, though a
+    // comparison of path strings instead of path components takes them for ancestors
+    let mut prefix_targets: Vec<PathBuf> = Vec::new();
+    if let (Some(parent), Some(name)) = (at.parent(), at.file_name().and_then(|n| n.to_str())) {
+        for k in 1..name.len().min(4) {
+            if name.is_char_boundary(k) {
+                prefix_targets.push(parent.join(&name[..k]));
+            }
+        }
+    }
+    materialize_with_links_inner(entries, at, links, &mut prefix_targets)
+}
+
+fn materialize_with_links_inner(entries: &[Entry], at: &Path, links: &Path, prefix_targets: &mut Vec<PathBuf>) {
     for e in entries {
         let p = at.join(&e.name);
         match &e.kind {
-            Kind::File(bytes) => std::fs::write(&p, bytes).expect("write file"),
+            Kind::File(bytes) => write_file(entries, e, bytes, at),
             Kind::Dir(children) => {
                 std::fs::create_dir(&p).expect("create dir");
-                materialize_with_links(children, &p, links);
+                materialize_with_links_inner(children, &p, links, prefix_targets);
             }
             Kind::Link(children) => {
                 let n = COUNTER.fetch_add(1, Ordering::SeqCst);
-                let target = links.join(format!("t{n}"));
+                let target = match prefix_targets.pop() {
+                    Some(t) if !t.exists() => t,
+                    _ => links.join(format!("t{n}")),
+                };
                 std::fs::create_dir_all(&target).expect("create link target");
-                materialize_with_links(children, &target, links);
+                materialize_with_links_inner(children, &target, links, prefix_targets);
                 std::os::unix::fs::symlink(&target, &p).expect("symlink");
             }
         }
@@ -317,9 +390,10 @@ pub fn shaped_specs(with_inert: bool) -> Vec<(String, Vec<Entry>)> {
         Entry { name, class: "eligible", kind: Kind::File(POOL[k % POOL.len()].as_bytes().to_vec()) }
     }
     fn inert(k: usize) -> Entry {
-        match k % 3 {
+        match k % 4 {
             0 => Entry { name: format!("T{k}.t.sol"), class: "test-file", kind: Kind::File(b"this is not solidity {".to_vec()) },
             1 => Entry { name: format!("B{k}.bin"), class: "other", kind: Kind::File(vec![0xff, 0xfe, 0x00, 0x80]) },
+            3 => Entry { name: "foundry.toml".into(), class: "other", kind: Kind::File(b"[profile.default]\nsolc = \"0.8.4\"\nsolc_version = \"0.7.6\"\n".to_vec()) },
             _ => Entry { name: format!("U{k}.SOL"), class: "other", kind: Kind::File(POOL[k % POOL.len()].as_bytes().to_vec()) },
         }
     }
@@ -348,7 +422,10 @@ pub fn shaped_specs(with_inert: bool) -> Vec<(String, Vec<Entry>)> {
     for i in 0..300usize {
         wide.push(file(format!("W{i}.sol"), i));
         if with_inert && i % 3 == 0 {
-            wide.push(inert(i));
+            let e = inert(i);
+            if !wide.iter().any(|w| w.name == e.name) {
+                wide.push(e);
+            }
         }
         if i == 150 {
             wide.push(Entry { name: "Sub".into(), class: "directory", kind: Kind::Dir((0..3).map(|j| file(format!("S{j}.sol"), j + 1)).collect()) });
